@@ -166,6 +166,16 @@ reg("C18",
     "recorder + foreign-macro invocation log + compile/run monitor", "DESIGN.md §4 C18")
 
 
+reg("C19",
+    "Exploration by runtime monitoring with benign/hostile twins: cases of the fn/mod, leaf-trait and impl-block generators are "
+    "compiled twice, once as they are and once inside a scope that defines 22 items named like every path segment the macro uses; "
+    "the hostile twin must compile, satisfy the same trace oracle and produce the same run record; the recorder's expansions of the "
+    "hostile twins are scanned for watch-listed identifiers that are not reached through a `::`-rooted path; generated traits named "
+    "Sync/Send/Future/AsRef; a #![no_std] library crate with all four input modes is driven from a std binary (trait call == direct call).",
+    "User tokens in these corpora use absolute paths only; async_trait's own unhygienic `Box` is excluded from the hostile scope for async_trait cases.",
+    "benign/hostile twin differential + recorder path-root scan + no_std client crate", "DESIGN.md §4 C19")
+
+
 def manifest():
     hooks_commits = subprocess.run(["git", "-C", "/repo", "log", "--format=%H", "--grep=^verif hook"],
                                    stdout=subprocess.PIPE, text=True).stdout.split()
